@@ -19,7 +19,7 @@ def hash_use_scan():
     return all(re.match(r"\s*%\s*t->nslots", rest) for _, rest in uses) and len(uses) >= 4
 
 TABLE_OPS_FOR = {
-    "C05": ["set_move", "set_move_moving", "rem", "clear", "del", "rehash"],
+    "C05": ["set_move", "set_move_moving", "rem", "clear", "del", "rehash", "assign"],
     "C11": ["iter"],
     "C12": ["lookup", "rem"],
     "C19": ["lookup", "iter"],
@@ -66,6 +66,8 @@ def jobs(tier):
     add("set_compose", "h_set_compose", 3, ["Table_Set"], rc=["Table_Set_Move:cv_set_move_stub", "Table_Resize_More:cv_resize_more_stub"], unwind=5)
     for (o, n) in ([(3, 5), (3, 1), (5, 11), (5, 1), (1, 5)] if tier == "thorough" else [(3, 5), (3, 1), (1, 5)]):
         add("rehash.%dto%d" % (o, n), "h_rehash", o, ["Table_Rehash"], defs=["NEWSIZE=%d" % n], rc=["Table_Set_Move:cv_set_move_rec"], unwind=14)
+    for mop in [0, 1, 2]:
+        add("assign.m%d" % mop, "h_assign", 3, ["Table_Assign", "Table_Clear"], defs=["MOP=%d" % mop], rc=["Table_Set_Move:cv_set_move_asg"], unwind=14)
     add("policy", "h_policy", 1, ["Table_Ideal_Size", "Table_Resize_More", "Table_Resize_Less"], rc=["Table_Rehash:cv_rehash_stub"], unwind=123)
     add("probe", "h_probe", 1, ["Table_Probe"])
     if not scan_ok:
